@@ -227,7 +227,9 @@ func anyHoisted(n *Node) bool {
 // validate a repair of /repo with the unchanged oracle.
 var allow = os.Getenv("C16_ALLOW")
 
-func allowed(f string) bool { return strings.Contains(allow, f) }
+// F6 (a fixed box registered twice by a line or a last inline child laid out twice) is fixed in
+// /repo (commits 60e1ebd and af397eb): its exclusion in sanitizePaged is lifted for good.
+func allowed(f string) bool { return f == "F6" || strings.Contains(allow, f) }
 
 func sanitize(roots []*Node) {
 	var rec func(kids []*Node, parentText bool, hoistedSpan bool)
@@ -591,16 +593,17 @@ func pagedCase(r *rand.Rand, o genOpts) c16In {
 //     context of an ancestor that is laid out on one page extends to the copies of the fixed box on
 //     the other pages is specified nowhere.  Inside a fixed sub-tree (repeated as a whole) anything goes.
 //
-// and what the tree gets wrong (open findings F5 and F6, witnesses findings/C16/fixed-*.json), in
+// and what the tree gets wrong (open finding F5; F6 is fixed, witnesses findings/C16/fixed-*.json), in
 // documents of several pages only: absolutely positioned ancestors of a fixed box become relatively
-// positioned (F5: the fixed box is not repeated), spans whose last child holds a fixed box lose
-// their border / padding (F6: the fixed box is repeated twice).  C16_ALLOW=F5,F6 (development only)
-// re-enables them.
+// positioned (F5: the fixed box is not repeated); until F6 was fixed (see allowed), spans whose last
+// child holds a fixed box lost their border / padding (the fixed box was repeated twice).
+// C16_ALLOW=F5 (development only) re-enables the F5 combination.
 func sanitizePaged(roots []*Node, multi bool) {
 	walk(roots, func(n *Node, anc []*Node) {
-		// open finding F6 (second route): the last child of an inline box with a right border /
-		// padding is laid out twice and a fixed box inside it is registered twice, so it is painted
-		// twice on the other pages; such spans lose their border and padding
+		// finding F6 (second route, fixed: allowed("F6") is always true now): the last child of an
+		// inline box with a right border / padding was laid out twice and a fixed box inside it
+		// registered twice, so it was painted twice on the other pages; such spans lost their border
+		// and padding
 		if multi && !allowed("F6") && n.disp() == "inline" && (n.Bd > 0 || n.Pad > 0) && len(n.Kids) > 0 {
 			var fx []*Node
 			for _, c := range n.Kids[len(n.Kids)-1].Kids {
